@@ -8,6 +8,7 @@ from .. import framework as fw
 from . import C01
 
 GEN_SECTIONS = []
+LEAVES = C01.LEAVES
 TRUSTED = C01.TRUSTED
 ASSUMPTIONS = ["monotonicity: no envelope; strictness: n·res ≤ 3·10^10 at every tempo and exact time below 10^6 s "
                "(float64 cannot resolve 2 µs beyond ~10^10 s: listed known finding)"]
